@@ -20,7 +20,7 @@ def state_fn(conf, hist, G, M):
 
 def run(tier, seed):
     return base.run_state_property(
-        PROP, LEVEL, state_fn, tier, seed, vacuity={'states_with_minus': 10, 'states_shared_event_instant': 10},
+        PROP, LEVEL, state_fn, tier, seed, pure=True, vacuity={'states_with_minus': 10, 'states_shared_event_instant': 10},
         sample_fn=base.default_samples,
         rule="BFS over add_* histories (U1,U2,TWO,U3), both classes, removal enabled; in every distinct state the stream "
              "is checked: non-decreasing t, no repeated (pair,op,t), '+' exactly at run starts, every '-' at a run end+1, "
